@@ -215,7 +215,7 @@ let parse_top (s : string) : top * string =
     | "del", _ -> TDel (nat 1)
     | _, "throw" :: e :: temps ->
         let ts = List.filter (fun x -> x <> "") (match temps with [t] -> split_on '/' t | _ -> []) in
-        (match List.hd f with "setfail" -> arg := ",arg=" ^ List.nth f 2 | _ -> ());
+        (match List.hd f with "setfail" | "setmfail" | "ctorbuffail" | "fmtmovestd" -> arg := ",arg=" ^ List.nth f 2 | _ -> ());
         TThrowing (List.map bytes_of_hex ts, exn_of_name e)
     | _ -> failwith ("drv_mem: bad string op " ^ s) in
   (t, !arg)
